@@ -25,6 +25,8 @@ NextSnap ==
   \/ \E f \in BOOLEAN : Publish(f, {})
   \/ \E v \in Vals, c \in Chains : c \in accts[v] /\ Register(v, accts[v] \ {c})    \* accounts only shrink here (bounded)
   \/ \E c \in Chains : c \notin active /\ Activate(c)
+  \/ \E v \in StakeVals : gen[v] < 1 /\ Rotate(v)
+  \/ \E v \in StakeVals, c \in Chains : SetBalance(v, c)
   \/ \E v \in StakeVals, a \in Amounts : Delegate(v, a) \/ Undelegate(v, a)
   \/ \E v \in Vals : JailF(v) \/ Unjail(v)
   \/ \E dt \in DTs : StakingEB(dt)
